@@ -106,19 +106,33 @@ pub fn record_c19(out: &str, seed: u64, threads: usize, per_thread: usize, unsyn
     use adblock::verif_hooks as hooks;
     use std::sync::atomic::{AtomicUsize, Ordering};
     let unsync: Value = serde_json::from_str(&std::fs::read_to_string(unsync_table).unwrap_or_default()).unwrap_or(json!({"table": []}));
-    let table = seq_table_guarded();
+    // the sequential table is computed on a helper thread: a lock that blocks even a single thread must end
+    // as a deadlock outcome in the trace, not as a hung harness
+    let (tx, rx) = std::sync::mpsc::channel();
+    std::thread::spawn(move || { let _ = tx.send(seq_table_guarded()); });
+    let table = match rx.recv_timeout(std::time::Duration::from_secs(120)) {
+        Ok(t) => t,
+        Err(_) => {
+            let mut w2 = LineWriter::create(out);
+            w2.put(&json!({"ev": "header", "t": 0, "q": 0, "digest": "", "seq": 0, "table": [], "unsync": [], "threads": threads, "per_thread": per_thread}));
+            w2.put(&json!({"ev": "deadlock", "t": 0, "q": 0, "digest": "", "seq": 0}));
+            w2.finish();
+            println!("{}", json!({"events": 2, "nontrivial": 0, "samples": []}));
+            std::process::exit(0);
+        }
+    };
     let e = engine();
     let qs = queries();
     let mut w = LineWriter::create(out);
     w.put(&json!({"ev": "header", "t": 0, "q": 0, "digest": "", "seq": 0, "table": table, "unsync": unsync["table"], "threads": threads, "per_thread": per_thread}));
     hooks::install();
     let finished = AtomicUsize::new(0);
+    let progress = AtomicUsize::new(0);
     let logs: std::sync::Mutex<Vec<(u64, u64, usize, u64, String)>> = std::sync::Mutex::new(vec![]);
-    let deadline = std::time::Instant::now() + std::time::Duration::from_secs(60);
     let barrier = std::sync::Barrier::new(threads);
-    let stuck = std::thread::scope(|s| {
+    std::thread::scope(|s| {
         for t in 0..threads {
-            let (e, qs, logs, finished, barrier) = (&e, &qs, &logs, &finished, &barrier);
+            let (e, qs, logs, finished, barrier, progress) = (&e, &qs, &logs, &finished, &barrier, &progress);
             s.spawn(move || {
                 hooks::set_thread_tag(t as u64 + 1);
                 barrier.wait();
@@ -133,28 +147,35 @@ pub fn record_c19(out: &str, seed: u64, threads: usize, per_thread: usize, unsyn
                     };
                     let en = hooks::emit("end");
                     mine.push((b, t as u64 + 1, qi + 1, en, d));
+                    progress.fetch_add(1, Ordering::SeqCst);
                 }
                 logs.lock().unwrap_or_else(|e| e.into_inner()).extend(mine);
                 finished.fetch_add(1, Ordering::SeqCst);
             });
         }
-        // watchdog: a stuck run becomes a "deadlock" outcome instead of hanging the check
+        // watchdog: a run in which NO thread completes a query for 30 s is a deadlock outcome (reported
+        // through the trace, then the process exits: stuck threads can never be joined).  Slowness is not a
+        // deadlock: as long as queries keep completing, the run continues.
+        let mut last = (progress.load(Ordering::SeqCst), std::time::Instant::now());
         loop {
             if finished.load(Ordering::SeqCst) == threads {
-                return false;
+                return;
             }
-            if std::time::Instant::now() > deadline {
-                return true;
+            let p = progress.load(Ordering::SeqCst);
+            if p != last.0 {
+                last = (p, std::time::Instant::now());
+            } else if last.1.elapsed() > std::time::Duration::from_secs(30) {
+                let mut w2 = LineWriter::create(&format!("{}.deadlock", out));
+                w2.put(&json!({"ev": "header", "t": 0, "q": 0, "digest": "", "seq": 0, "table": [], "unsync": [], "threads": threads, "per_thread": per_thread}));
+                w2.put(&json!({"ev": "deadlock", "t": 0, "q": 0, "digest": "", "seq": 0}));
+                w2.finish();
+                let _ = std::fs::rename(format!("{}.deadlock", out), out);
+                println!("{}", json!({"events": 2, "nontrivial": 0, "samples": []}));
+                std::process::exit(0);
             }
-            std::thread::sleep(std::time::Duration::from_millis(5));
+            std::thread::sleep(std::time::Duration::from_millis(20));
         }
     });
-    if stuck {
-        w.put(&json!({"ev": "deadlock", "t": 0, "q": 0, "digest": "", "seq": 0}));
-        w.finish();
-        println!("{}", json!({"events": 2, "nontrivial": 0, "samples": []}));
-        std::process::exit(0);
-    }
     let events = hooks::drain();
     let logs = logs.into_inner().unwrap_or_else(|e| e.into_inner());
     let mut byseq: std::collections::HashMap<u64, (usize, String)> = Default::default();
